@@ -75,6 +75,9 @@ func c05(r *Report) propMeta {
 	r.Rule("C05.R6", "store-key agreement: every point read/delete addresses a written key family")
 	r.StoreKeyAgreement("store-keys", "tss", 35, nil)
 
+	r.Rule("C05.R7", "E15 wire fields validated by their own type")
+	r.WireFieldsValidated("wire", "x/tss/types", []string{"MsgSubmitDEs"}, 2)
+
 	return propMeta{
 		Decided: []string{
 			"R1 DE and DEQueue stores written only by SetDE/DeleteDE/SetDEQueue; DeleteDE<-{DequeueDE,ResetDE}; DequeueDE<-DequeueDEs<-AssignMembersForSigning<-InitiateNewSigningRound",
@@ -83,6 +86,7 @@ func c05(r *Report) propMeta {
 			"R4 EnqueueDEs writes only under not(Tail-Head+len(des) > MaxDESize); members are eligible only if IsActive and HasDE",
 			"R5 ResetDE zeroes the queue only after the delete loop over [Head,Tail) completed",
 			"R6 every KV-store Get/Has/Delete of x/tss uses a key builder of x/tss/types that some Set of the module also uses (a probe of an iteration prefix or of a sibling family is always-empty state)",
+			"R7 both points of every submitted DE reach tss.Point.Validate from MsgSubmitDEs.ValidateBasic",
 		},
 		Undecided: []string{"that the daemon never re-registers the same (D,E) pair (randomness)", "FIFO order as a history property beyond R2's head arithmetic"},
 		Assume:    []string{"CacheContext isolates writes until writeFn is called", "msg handlers are atomic (baseapp runTx)", "VTA resolves the bandtss/tss keeper interfaces and callback router"},
